@@ -52,10 +52,12 @@ type bcaseT struct {
 	// App: the history runs through a real app.App — StartBuffering is the one app.New performs,
 	// FlushBuffer the one App.Start performs after the banner (App.flushStartupLogs); one worker,
 	// logs go through App.BaseLogger()
-	App    bool `json:",omitempty"`
-	Custom bool `json:",omitempty"`
-	Progs  [][]bopT
-	Sched  []stepT
+	App bool `json:",omitempty"`
+	// Cancelled (app mode): the context handed to App.Start is already cancelled; the op ends when Start returns
+	Cancelled bool `json:",omitempty"`
+	Custom    bool `json:",omitempty"`
+	Progs     [][]bopT
+	Sched     []stepT
 }
 
 type evT struct {
@@ -690,6 +692,18 @@ func runApp(k bcaseT) (out bcaseT, trace []evT, ok bool, stats map[string]int) {
 		case "L":
 			a.BaseLogger().Log(context.Background(), slogLevels[op.L.Lvl], msgOf(0, op.L))
 		case "F": // App.Start prints the banner, then flushes the startup logs, then reports ready
+			if k.Cancelled {
+				// a start-up that is called off: whatever Start does, the startup logs must be out when it returns
+				cancel()
+				go func() { startErr <- a.Start(ctx) }()
+				select {
+				case e := <-startErr:
+					startErr <- e
+				case <-time.After(20 * time.Second):
+					panic("app start with a cancelled context did not return")
+				}
+				break
+			}
 			go func() { startErr <- a.Start(ctx) }()
 			select {
 			case <-ready:
@@ -727,5 +741,6 @@ func fixedApp() []bcaseT {
 	return []bcaseT{
 		{App: true, Progs: [][]bopT{{S, lg(0, 1, false), lg(1, 3, false), lg(2, 0, false), lg(3, 2, false), F, lg(4, 1, false)}}},
 		{App: true, Progs: [][]bopT{{S, F, lg(0, 3, false)}}},
+		{App: true, Cancelled: true, Progs: [][]bopT{{S, lg(0, 1, false), lg(1, 3, false), F, lg(2, 2, false)}}},
 	}
 }
